@@ -785,17 +785,17 @@ class Parser:
             if action is SHIFT:
                 act_str = "SHIFT"
                 token = context.token
-                production = ""
-                subresults = ""
+                production_str = ""
+                subresults_str = ""
             else:
                 act_str = "REDUCE"
                 token = context.token_ahead
-                production = f", prod={context.production}"
-                subresults = f", subresults={subresults}"
+                production_str = f", prod={context.production}"
+                subresults_str = f", subresults={subresults}"
 
             h_print(
                 "Calling filter for action:",
-                f" {act_str}, token={token}{production}{subresults}",
+                f" {act_str}, token={token}{production_str}{subresults_str}",
                 level=2,
             )
 
